@@ -14,7 +14,7 @@ pub static PROP: Prop = Prop {
     id: "C17",
     run,
     replay,
-    rule: "xlsx workbooks (1-3 sheets from the C01 generator) with 0-12 mergeCell references per sheet anywhere up to XFD1048576 (single cells and areas) and 0-3 tables per sheet whose ref lies inside / straddles / lies outside the used range (also on an empty sheet), headerRowCount absent/0/1, totalsRowCount absent/0/1, >= 1 data row, 1-8 columns whose names include XML specials; every getter is compared with the declared geometry and the table data range with the model's values over ref minus header and totals rows. xls: MERGEDCELLS split over 1-3 records (added with the BIFF encoder). Non-trivial = >= 2 sheets carrying regions, a region with a column >= 26, and a table that straddles the used range or has a totals row; distinct by serialized case.",
+    rule: "xlsx workbooks (1-3 sheets from the C01 generator) with 0-12 mergeCell references per sheet anywhere up to XFD1048576 (single cells and areas) and 0-3 tables per sheet whose ref lies inside / straddles / lies outside the used range (also on an empty sheet), headerRowCount absent/0/1, totalsRowCount absent/0/1, >= 1 data row, 1-8 columns whose names include XML specials; every getter is compared with the declared geometry and the table data range with the model's values over ref minus header and totals rows. xls: 1-3 sheets whose regions are split over 0-3 MERGEDCELLS records, stored under a generated compound-file layout. Non-trivial = >= 2 sheets carrying regions, a region with a column >= 26, and a table that straddles the used range or has a totals row; distinct by serialized case.",
 };
 
 #[derive(Debug, Clone, Serialize, Deserialize)]
@@ -271,12 +271,80 @@ fn oracle(case: &Case) -> Report {
 fn run(ctx: &mut Ctx) {
     let n = ctx.n(2500, 60_000);
     ctx.run("xlsx", n, case_strategy, oracle);
+    let n = ctx.n(2000, 40_000);
+    ctx.run("xls", n, xls_case_strategy, oracle_xls);
     ctx.assumptions.push("tables have at least one data row; table names are identifiers; table parts are referenced as ../tables/tableN.xml from the sheet's relationship part (the layout every producer writes)".into());
 }
 
 fn replay(sub: &str, case: &serde_json::Value) -> Option<Report> {
     match sub {
         "xlsx" => replay_as::<Case>(case, oracle),
+        "xls" => replay_as::<XlsCase>(case, oracle_xls),
         _ => None,
     }
+}
+
+// ---------------------------------------------------------------------------------------------
+// xls: MERGEDCELLS records
+
+use crate::enc::biff8 as b8;
+
+#[derive(Debug, Clone, Serialize, Deserialize)]
+pub struct XlsCase {
+    /// per sheet: the MERGEDCELLS records, each a list of regions
+    pub sheets: Vec<Vec<Vec<(Pos, Pos)>>>,
+    pub cfb: crate::enc::cfb::CfbLayout,
+}
+
+fn xls_region() -> impl Strategy<Value = (Pos, Pos)> {
+    let row = prop_oneof![3 => 0u32..50, 1 => Just(65_535u32), 1 => 0u32..65_536];
+    let col = prop_oneof![3 => 0u32..30, 1 => Just(25u32), 1 => Just(26u32), 1 => Just(255u32), 1 => 0u32..256];
+    (row, col, 0u32..6, 0u32..6).prop_map(|(r, c, h, w)| ((r, c), ((r + h).min(65_535), (c + w).min(255))))
+}
+
+fn xls_case_strategy() -> impl Strategy<Value = XlsCase> {
+    (proptest::collection::vec(proptest::collection::vec(proptest::collection::vec(xls_region(), 1..6), 0..4), 1..4), crate::props::c13::layout_strategy()).prop_map(|(sheets, cfb)| XlsCase { sheets, cfb })
+}
+
+fn oracle_xls(case: &XlsCase) -> Report {
+    let mut rep = Report::new();
+    let names = ["Sheet1", "Zwei", "S3"];
+    let doc = b8::XlsDoc {
+        sheets: case
+            .sheets
+            .iter()
+            .enumerate()
+            .map(|(i, m)| b8::BSheet { name: names[i].into(), cells: vec![b8::BCell { row: 0, col: 0, ixfe: 0, rec: b8::BRec::Number(1.0) }], merges: m.clone(), dimensions: 1, junk: i as u8 * 7, ..Default::default() })
+            .collect(),
+        xfs: vec![0],
+        cfb: case.cfb.clone(),
+        ..Default::default()
+    };
+    let wb = match crate::props::c02::open_xls(b8::encode(&doc)) {
+        Ok(w) => w,
+        Err(e) => {
+            rep.fail(e);
+            return rep;
+        }
+    };
+    for (i, m) in case.sheets.iter().enumerate() {
+        let expected: Vec<Dimensions> = m.iter().flatten().map(|r| dims(*r)).collect();
+        for (what, got) in [("worksheet_merge_cells", guard(|| wb.worksheet_merge_cells(names[i]))), ("worksheet_merge_cells_at", guard(|| wb.worksheet_merge_cells_at(i)))] {
+            match got {
+                Ok(Some(v)) if v == expected => {}
+                other => {
+                    rep.fail(format!("xls {what}({:?}) = {other:?}, expected {expected:?}", names[i]));
+                    return rep;
+                }
+            }
+        }
+        rep.label_if(m.len() > 1, "xls:several-MERGEDCELLS-records");
+    }
+    match guard(|| (wb.worksheet_merge_cells("nope"), wb.worksheet_merge_cells_at(case.sheets.len()))) {
+        Ok((None, None)) => {}
+        other => rep.fail(format!("xls merge cells of an unknown sheet: {other:?}")),
+    }
+    let with_regions = case.sheets.iter().filter(|m| !m.is_empty()).count();
+    rep.nontrivial = with_regions >= 2 && case.sheets.iter().flatten().flatten().any(|r| r.1 .1 >= 26);
+    rep
 }
